@@ -28,6 +28,19 @@ def run(res):
             outs.append(c)
             if c.get("oracle_fail"):
                 res.violations.append({"what": c["oracle_fail"], "case": c, "family": "writers", "signature": "writers:bad-result"})
+    # a response held up for seconds by a peer that does not read: the writer is held from first byte to flush
+    rc, sw, err, bad = vlib.run_family(exe, "slow-writer", seed=res.seed, tier=res.tier, timeout=300)
+    if rc != 0:
+        lp = vlib.library_panic(err)
+        i = err.find("panic:")
+        msg = err[i:i + 1500] if i >= 0 else err[-1500:]
+        res.violations.append({"what": "the process died while a large response was held up by a peer that was not reading: " + (lp or msg.splitlines()[0][:200]),
+                               "kind": "trace", "family": "slow-writer", "case": {"stderr": msg, "how": "harness/bin/jrpcdrive slow-writer"},
+                               "signature": "slow-writer:panic"})
+    for c in sw or []:
+        if c.get("oracle_fail"):
+            res.violations.append({"what": c["oracle_fail"], "case": c, "family": "slow-writer", "signature": "slow-writer:%d" % c["size"]})
+    res.add_cov(slow_writer_cases=[{k: c[k] for k in ("stall_ms", "size", "messages", "big_ok", "small_ok")} for c in sw or []])
     # the table itself, for the evidence
     rows = open(vlib.COQ + "/gen/LockTable.v").read()
     nrows = rows.count('%Z)')
